@@ -143,6 +143,10 @@ class Sim:
             self.count("cfg_big_sparse_ids")
         if world.get("id_keys") == "renamed":
             self.count("cfg_id_keys_renamed")
+        if world.get("seg_layout", "C") != "C":
+            self.count("cfg_seg_not_contiguous")
+        if "0" in world["nodes"]:
+            self.count("cfg_node_id_zero")
         if not world["nodes"]:
             self.count("cfg_empty_start")
 
@@ -980,7 +984,7 @@ class Sim:
                     node = int(np.iinfo(tr.segmentation.dtype).max) + 1 + node % 1000
                 else:
                     inv = None
-            while node in g.nodes or (self.with_seg and node <= labels_max and (tr.segmentation == node).any()) or node == 0:
+            while node in g.nodes or (self.with_seg and node <= labels_max and (tr.segmentation == node).any()) or (node == 0 and self.with_seg):
                 node += 1
         tid = self.pick_track(op["track"])
         tkey, trk = tr.features.time_key, tr.features.tracklet_key
@@ -1482,16 +1486,27 @@ class Sim:
         for k in range(n_more):
             # a stroke spanning several frames: legal for an erase (background), an
             # invalid request for a label (the library documents one time point per update)
-            t2 = (t + 1 + k) % self.T
+            t2 = (t + (1 + k) * (-1 if op.get("frames_prev") else 1)) % self.T
             if t2 == t or any(t2 == e[0] for e in extra_frames):
                 break
             fr2 = seg[t2]
             mask2 = mask & (fr2 != value)
             if mask2.any():
                 extra_frames.append((t2, mask2, fr2.copy()))
+                more = []
                 for old in [int(x) for x in np.unique(fr2[mask2]).tolist()]:
                     idx = np.nonzero(mask2 & (fr2 == old))
-                    updated.append(((np.full(len(idx[0]), t2), *idx), old))
+                    more.append(((np.full(len(idx[0]), t2), *idx), old))
+                # the client lists the frames in either order
+                updated = more + updated if op.get("extra_first") else updated + more
+        if op.get("merge_frames") and extra_frames:
+            # a client that groups the changed pixels by old value only: one entry may span
+            # several frames
+            merged: dict = {}
+            for px, old in updated:
+                merged.setdefault(old, []).append(px)
+            updated = [(tuple(np.concatenate([p[i] for p in pxs]) for i in range(len(pxs[0]))), old) for old, pxs in merged.items()]
+            self.count("pt_merged_frame_entries")
         tid = self.pick_track(op["track"])
         force = bool(op.get("force"))
         # classification
